@@ -39,6 +39,7 @@ func init() {
 	commands["conc-clock"] = concx.ClockCmd
 	commands["conc-child"] = concx.Child
 	commands["lock"] = lockx.Run
+	commands["lock-close"] = lockx.CloseWindow
 	commands["lock-worker"] = lockx.Worker
 	commands["fidelity"] = fidx.Run
 	commands["fidelity-worker"] = fidx.Worker
